@@ -127,7 +127,9 @@ def lookup(L, kid):
 
 def expired_at_some(st, acq, tmo):
     rs = st.env.get('clock_readings', [])
-    return z3.Or([z3.UGT(z3.If(z3.UGE(r, acq), r - acq, U64(0)), tmo) for r in rs]) if rs else z3.BoolVal(False)
+    # the instant age == timeout may count either way (the property does not fix the boundary): expired means age >= timeout here,
+    # unexpired means age <= timeout below
+    return z3.Or([z3.UGE(z3.If(z3.UGE(r, acq), r - acq, U64(0)), tmo) for r in rs]) if rs else z3.BoolVal(False)
 
 
 def unexpired_at_some(st, acq, tmo):
